@@ -45,6 +45,17 @@ LAWS = {"EN": ExtendedNeuber, "SB": SeegerBeste}
 _law_cache = {}
 
 
+def law_nodes(pairs, order):
+    """The per-node maxima in the node order in which the user built them: like the samples, sorted by
+    node id (what signal.abs().groupby('node_id').max() gives), or reversed."""
+    pairs = list(pairs)
+    if order == "sorted":
+        pairs.sort(key=lambda p: p[0])
+    elif order == "reversed":
+        pairs.reverse()
+    return pairs
+
+
 def get_law(kind, mat, max_load, bins):
     """Binned law; cached per process (construction is a pure function of the key)."""
     if isinstance(max_load, (list, tuple)):
@@ -397,6 +408,7 @@ def generate(prop, rng, tier):
             tr["batch"] = [[i, rng.choice([1.0, 2.0, 0.5, 4.0])] for i in ids]
             tr["row_order"] = rng.choice(["step", "step", "node"])
             tr["subset_of_mesh"] = rng.random() < 0.4
+            tr["law_order"] = rng.choice(["samples", "samples", "sorted", "reversed"])
         return tr
     return generate_c05(rng, tier)
 
@@ -458,6 +470,7 @@ def generate_c05(rng, tier):
         tr["shared_max"] = rng.random() < 0.35
         tr["row_order"] = rng.choice(["step", "step", "node"])
         tr["subset_of_mesh"] = rng.random() < 0.4
+        tr["law_order"] = rng.choice(["samples", "samples", "sorted", "reversed"])
         # K2 wants all loads off the class edges (see DESIGN 4.5 "known trap")
         f = 1.0137
         loads = [x * step for x in lv]
@@ -504,6 +517,7 @@ def generate_c05_chunked(rng, tr):
         ids, ratios = ids[:2], ratios[:2]
     tr.update({"mode": "K4", "levels": lv, "cuts": sorted(cuts), "nodes": [[i, r] for i, r in zip(ids, ratios)],
                "ckpt": rng.choice(["none", "none", "deepcopy", "pickle"]), "ckpt_at": rng.randrange(64),
+               "law_order": rng.choice(["samples", "samples", "sorted", "reversed"]),
                "final_flush": rng.random() < 0.6, "restart_load_step": rng.random() < 0.3, "max_factor": 1.0731,
                "shared_max": rng.random() < 0.3})
     return tr
@@ -554,7 +568,9 @@ def exec_c04(trace, out, log):
         if trace.get("row_order") == "node":
             ser = node_major(ser, [i for i, _ in nodes])
             out.count("probe:node_major_rows")
-        law = get_law(trace["law"], int(trace["mat"]), [(i, big * 1.0731 * r) for i, r in nodes], int(trace["bins"]))
+        law = get_law(trace["law"], int(trace["mat"]), law_nodes([(i, big * 1.0731 * r) for i, r in nodes], trace.get("law_order")), int(trace["bins"]))
+        if trace.get("law_order") in ("sorted", "reversed"):
+            out.count("probe:law_node_order_" + trace["law_order"])
         det, rec, _ = run_two_pass(ser, law, peek=trace.get("peek", "none"))
         all_rows = collective_rows(rec)
         out.steps += 2
@@ -837,7 +853,9 @@ def exec_c05(trace, out, log):
         mx = max(r for _, r in nodes) * big * mf
         law_b = get_law(kind, mat, mx, bins)
     else:
-        law_b = get_law(kind, mat, [(i, big * mf * r) for i, r in nodes], bins)
+        law_b = get_law(kind, mat, law_nodes([(i, big * mf * r) for i, r in nodes], trace.get("law_order")), bins)
+        if trace.get("law_order") in ("sorted", "reversed"):
+            out.count("probe:law_node_order_" + trace["law_order"])
     detb, recb, _ = run_two_pass(batch, law_b)
     rows_b = collective_rows(recb)
     out.steps += 2
@@ -905,7 +923,7 @@ def exec_c05_chunked(trace, out, log):
     if shared:
         law_b = get_law(kind, mat, max(r for _, r in nodes) * big * mf, bins)
     else:
-        law_b = get_law(kind, mat, [(i, big * mf * r) for i, r in nodes], bins)
+        law_b = get_law(kind, mat, law_nodes([(i, big * mf * r) for i, r in nodes], trace.get("law_order")), bins)
     chunks_b = []
     for a, b in zip(bounds[:-1], bounds[1:]):
         steps_ = range(0, b - a) if restart else range(a, b)
@@ -1134,7 +1152,7 @@ def describe(prop):
             "assumptions": ["benign junctions only (junctions are C04's subject)", "floats compared to 1e-9 relative to the column scale; flags and pass numbers exactly",
                             "K2 uses binning maxima that keep every load, load difference and doubled load off the class edges for every node (the batch picks the class from its first node)",
                             "models/hcm_ref.py is trusted; the law's scalar and Series interfaces are assumed to agree (checked indirectly by K1)"],
-            "required_probes": ["probe:M1", "probe:M2", "probe:M3", "probe:memory2_chain", "probe:batch_nodes", "twin:neg", "op:process_chunk", "probe:cut_in_or_after_reversal_dwell"]}
+            "required_probes": ["probe:law_node_order_sorted", "probe:M1", "probe:M2", "probe:M3", "probe:memory2_chain", "probe:batch_nodes", "twin:neg", "op:process_chunk", "probe:cut_in_or_after_reversal_dwell"]}
 
 
 _canary_law = []
